@@ -23,6 +23,8 @@ PRODUCERS_DEADLINE = 30.0       # s without any consumer receiving anything
 STALL_DEADLINE = 20.0           # s without any consumer receiving anything,
 #                                 after every producer has finished and flushed
 JOIN_DEADLINE = 20.0            # s for join() after every task_done happened
+EXIT_DEADLINE = 60.0            # s for a consumer process that has written its
+#                                 report to exit (else inconclusive)
 
 
 def payload(p, seq, size):
@@ -78,12 +80,15 @@ class Counters:
             self.g += 1
 
 
-def produce(q, case, k, counters=None):
+def produce(q, case, k, prog_w=None, counters=None):
     """the producer loop; returns a report dict"""
     from queue import Full
     pspec = case['producers'][k]
     timed = pspec.get('mode') == 'timed' and case['kind'] != 'SQ'
-    rep = {'sent': 0, 'full_hits': 0, 'error': None}
+    rep = {'sent': 0, 'full_hits': 0, 'error': None,
+           't_start': time.monotonic(), 't_end': None}
+    if prog_w is not None:
+        os.write(prog_w, b'p')           # this producer is running
     try:
         for seq in range(plan_n(pspec)):
             item = (k, seq, payload(k, seq, size_of(pspec, seq)))
@@ -101,6 +106,7 @@ def produce(q, case, k, counters=None):
             rep['sent'] += 1
     except BaseException as exc:     # whatever put raised is a finding
         rep['error'] = '%s: %r' % (type(exc).__name__, exc)
+    rep['t_end'] = time.monotonic()
     return rep
 
 
@@ -113,8 +119,10 @@ def consume(q, case, k, prog_w, counters=None):
     timed = cspec.get('mode') == 'timed' and kind != 'SQ'
     prods = case['producers']
     rep = {'log': [], 'sentinels': 0, 'empty_hits': 0, 'error': None,
-           'malformed': None}
+           'malformed': None, 't_start': time.monotonic(), 't_last': None,
+           't_end': None}
     log = rep['log']
+    os.write(prog_w, b'c')               # this consumer is running
     try:
         while True:
             if counters is not None:
@@ -128,6 +136,7 @@ def consume(q, case, k, prog_w, counters=None):
                         rep['empty_hits'] += 1
             else:
                 item = q.get()
+            rep['t_last'] = time.monotonic()
             os.write(prog_w, b'.')       # progress; strictly before task_done
             if kind == 'JQ':
                 q.task_done()
@@ -144,6 +153,7 @@ def consume(q, case, k, prog_w, counters=None):
                         int(data == payload(p, seq, size_of(prods[p], seq)))])
     except BaseException as exc:     # whatever get raised is a finding
         rep['error'] = '%s: %r' % (type(exc).__name__, exc)
+    rep['t_end'] = time.monotonic()
     return rep
 
 
@@ -159,9 +169,9 @@ def _wait_gate(gate_r, gate_w):
     os.close(gate_r)
 
 
-def producer_proc(q, case, k, gate_r, gate_w, path):
+def producer_proc(q, case, k, gate_r, gate_w, prog_w, path):
     _wait_gate(gate_r, gate_w)
-    _dump(path, produce(q, case, k))
+    _dump(path, produce(q, case, k, prog_w))
     # the process exit handler flushes the feeder thread (Queue._finalize_join)
 
 
@@ -179,15 +189,15 @@ def _load(path):
 
 
 def _drain_nonblocking(fd):
-    n = 0
+    out = b''
     while True:
         try:
             chunk = os.read(fd, 65536)
         except BlockingIOError:
-            return n
+            return out
         if not chunk:
-            return n
-        n += len(chunk)
+            return out
+        out += chunk
 
 
 def _thread_stacks():
@@ -249,6 +259,7 @@ def arena_main(case, tmpdir):
     fh_path = os.path.join(tmpdir, 'child_stacks.txt')
     fh_file = open(fh_path, 'a')
     faulthandler.register(signal.SIGUSR1, file=fh_file, all_threads=True)
+    times = {'arena_start': time.monotonic()}
     kind, maxsize = case['kind'], int(case['maxsize'])
     prods, cons = case['producers'], case['consumers']
     q = make_queue(kind, maxsize)
@@ -273,10 +284,11 @@ def arena_main(case, tmpdir):
         if p['proc']:
             path = os.path.join(tmpdir, 'p%d.json' % k)
             pr = billiard.Process(target=producer_proc, args=(
-                q, case, k, gate_r, gate_w, path))
+                q, case, k, gate_r, gate_w, prog_w, path))
             pr.start()
             pprocs[k] = (pr, path)
 
+    times['forked'] = time.monotonic()
     go = threading.Event()
     creps, preps = {}, {}
 
@@ -286,7 +298,7 @@ def arena_main(case, tmpdir):
 
     def pthread(k):
         go.wait()
-        preps[k] = produce(q, case, k, counters)
+        preps[k] = produce(q, case, k, prog_w, counters)
 
     cthreads = {k: threading.Thread(target=cthread, args=(k,), daemon=True,
                                     name='consumer-%d' % k)
@@ -299,10 +311,14 @@ def arena_main(case, tmpdir):
     os.close(gate_r)
     os.close(gate_w)        # opens the gate for the processes
     go.set()
+    times['gate_open'] = time.monotonic()
 
-    res = {'phase': 'done', 'total': total, 'join': None, 'cap_max_lb': None}
+    res = {'phase': 'done', 'total': total, 'join': None, 'cap_max_lb': None,
+           'times': times}
 
     def collect():
+        times['collect'] = time.monotonic()
+        times['last_progress'] = prog['t']
         if res['phase'] in ('stalled', 'producers_stuck'):
             res['stacks'] = _thread_stacks() + '\n' + _child_stacks(
                 [pr for pr, _ in list(cprocs.values()) + list(pprocs.values())
@@ -346,61 +362,93 @@ def arena_main(case, tmpdir):
                     return True
         return False
 
-    prog = {'n': 0, 't': time.monotonic(), 'lock': threading.Lock()}
+    prog = {'n': 0, 'started_c': 0, 'started_p': 0, 'idle': 0.0,
+            'last_poll': time.monotonic(), 't': time.monotonic(),
+            'lock': threading.Lock()}
 
     def progress():
         """items received so far by all consumers (one byte each on the
-        progress pipe); remembers when the count last moved"""
+        progress pipe, plus one byte per party that has started)"""
         with prog['lock']:
-            k = _drain_nonblocking(prog_r)
-            if k:
-                prog['n'] += k
+            data = _drain_nonblocking(prog_r)
+            if data:
+                prog['n'] += data.count(b'.')
+                prog['started_c'] += data.count(b'c')
+                prog['started_p'] += data.count(b'p')
                 prog['t'] = time.monotonic()
+                prog['idle'] = 0.0
             return prog['n']
 
-    def wait_for(threads, procs, patience):
+    def poll(count_idle):
+        """one 10 ms step of waiting.  Idle time is *observed* time: a step
+        counts for at most 0.1 s, so a freeze of this whole process (GC,
+        scheduler) is not mistaken for a stall of the others."""
+        time.sleep(0.01)
+        now = time.monotonic()
+        dt = min(now - prog['last_poll'], 0.1)
+        prog['last_poll'] = now
+        progress()
+        if count_idle:
+            prog['idle'] += dt
+        else:
+            prog['idle'] = 0.0
+        return prog['idle']
+
+    def finished(threads, procs, by_report):
+        if any(t.is_alive() for t in threads.values()):
+            return False
+        for pr, path in procs.values():
+            if pr.exitcode is None and not (by_report and
+                                            os.path.exists(path)):
+                return False
+        return True
+
+    def wait_for(threads, procs, patience, by_report, all_started):
         """'ok' when all have finished, 'aborted' as soon as any party has
         reported an exception (no point in waiting for the rest), 'timeout'
-        when no consumer has received anything for ``patience`` seconds"""
-        prog['t'] = time.monotonic()
+        when, with every party concerned running, no consumer has received
+        anything for ``patience`` seconds"""
+        prog['idle'] = 0.0
+        prog['last_poll'] = time.monotonic()
         while True:
-            if not (any(t.is_alive() for t in threads.values()) or
-                    any(pr.exitcode is None for pr, _ in procs.values())):
+            if finished(threads, procs, by_report):
                 return 'ok'
             if party_failed():
                 return 'aborted'
-            progress()
-            if time.monotonic() - prog['t'] > patience:
+            if poll(all_started()) > patience:
                 return 'timeout'
-            time.sleep(0.01)
 
     # 1. all producers finish (a process producer's exit implies its feeder
     #    thread has flushed everything into the pipe)
-    how = wait_for(pthreads, pprocs, PRODUCERS_DEADLINE)
+    how = wait_for(pthreads, pprocs, PRODUCERS_DEADLINE, False,
+                   lambda: prog['started_p'] == len(prods) and
+                   prog['started_c'] == len(cons))
     if how != 'ok':
         res['phase'] = 'aborted' if how == 'aborted' else 'producers_stuck'
         return collect()
 
     # 2. one sentinel per consumer, behind every item
-    prog['t'] = time.monotonic()
+    times['producers_done'] = time.monotonic()
+    prog['idle'] = 0.0
     for _ in cons:
         if kind == 'SQ':
             q.put(None)
         else:
             while True:
                 try:
-                    q.put(None, True, 0.5)
+                    q.put(None, True, 0.05)
                     break
                 except Full:
-                    progress()
-                    if party_failed() or \
-                            time.monotonic() - prog['t'] > STALL_DEADLINE:
-                        res['phase'] = ('aborted' if party_failed()
-                                        else 'stalled')
+                    if party_failed():
+                        res['phase'] = 'aborted'
+                        return collect()
+                    if poll(prog['started_c'] == len(cons)) > STALL_DEADLINE:
+                        res['phase'] = 'stalled'
                         return collect()
         if counters is not None:
             counters.put_returned()
 
+    times['sentinels_put'] = time.monotonic()
     # 3. JoinableQueue: join() must return exactly when everything is done
     jstate = {}
     jthread = None
@@ -412,14 +460,25 @@ def arena_main(case, tmpdir):
                                    name='join-probe')
         jthread.start()
 
-    # 4. consumers finish
-    how = wait_for(cthreads, cprocs, STALL_DEADLINE)
+    # 4. consumers finish consuming (a process consumer: its report exists)
+    how = wait_for(cthreads, cprocs, STALL_DEADLINE, True,
+                   lambda: prog['started_c'] == len(cons))
     if how != 'ok':
         res['phase'] = 'aborted' if how == 'aborted' else 'stalled'
         return collect()
+    times['consumers_done'] = time.monotonic()
+    deadline = time.monotonic() + EXIT_DEADLINE
+    for pr, _ in cprocs.values():
+        pr.join(max(0.0, deadline - time.monotonic()))
+        if pr.exitcode is None:
+            res['phase'] = 'exit_slow'
+            return collect()
 
     if jthread is not None:
-        jthread.join(JOIN_DEADLINE)
+        prog['idle'] = 0.0
+        prog['last_poll'] = time.monotonic()
+        while jthread.is_alive() and poll(True) <= JOIN_DEADLINE:
+            pass
         res['join'] = {'returned': not jthread.is_alive(),
                        'progress_at_return':
                            jstate.get('progress_at_return')}
